@@ -887,7 +887,8 @@ func (s *State) extendFunctionEnv(
 		if len(args) > 0 {
 			// (the array may be a variable of an enclosing scope)
 			if last := object.Value(args[len(args)-1]); last.Type() == object.ARRAY {
-				args = append(args[:len(args)-1], object.Elements(last)...)
+				// a new slice: the caller's one is also the key under which the result is memoized.
+				args = append(slices.Clone(args[:len(args)-1]), object.Elements(last)...)
 			}
 		}
 		if len(args) >= n {
